@@ -4,7 +4,13 @@
    event model replayed on the same events disagrees with the implementation
    (bookkeeping, gate decisions, ready bounds). Kind 2: a clause of Spec/C15.v
    is false on the implementation's observation. A sets case is a list of
-   active sets reached by a handler-less machine of a real schema. *)
+   active sets reached by a handler-less machine of a real schema.
+
+   Rounds of the normalizer: the listing (Add ListWorkers{""}) is the event
+   ENormalize; its record carries the tracked count of that very transition
+   (what ListWorkersState handed out is a snapshot of the same map) and the
+   number of ForkWorker mutations the listing goroutine queued afterwards
+   (attributed by goroutine, so nothing asynchronous can blur the count). *)
 From Coq Require Import List NArith Bool Arith.
 From AMV Require Import Base.ListSet Model.Schema Spec.C19 Conc.Pool Spec.C15.
 Import ListNotations.
@@ -24,7 +30,14 @@ Record oev := {
   o_before : list nat;         (* active states before / after (indexes of the real machine) *)
   o_after : list nat;
   o_kills : list nat;          (* keys of the Add KillingWorker mutations queued during the transition *)
-  o_started : bool             (* ForkingWorkerState ran: the fork was started *)
+  o_started : bool;            (* ForkingWorkerState ran: the fork was started *)
+  o_round : option (N * N * bool);
+                               (* ENormalize: (id of the round, ForkWorker mutations its goroutine
+                                  queued after this listing and before its next mutation, that
+                                  count is final: the goroutine was seen to move on and the
+                                  listing was answered in time) *)
+  o_src : N                    (* EForkReq / EForking: id of the round that requested the fork;
+                                  0: not a normalizer round (the driver) *)
 }.
 
 (* [emulti]: ErrWorker is a Multi state in the real (regenerated) schema *)
@@ -104,6 +117,15 @@ Definition mismatch (c : cfg) (em : bool) (pr ew : nat) (s : st) (o : oev) : lis
       | ETryReady => if o_acc o && negb (mem pr (o_after o)) then [(1, 8)] else []
       | ETryUnready => if o_acc o && mem pr (o_after o) then [(1, 8)] else []
       | _ => []
+      end)
+  (* the forks a round requests: the model's count for the listing it got *)
+  ++ (match o_ev o, o_round o with
+      | ENormalize, Some (_, n, final) =>
+        let expect := if o_acc o then requests c s ENormalize else 0 in
+        if final then (if n =? expect then [] else [(1, 10)])
+        else (if n <=? expect then [] else [(1, 10)])
+      | ENormalize, None => [(1, 11)]
+      | _, _ => []
       end).
 
 (* does the model request a kill for this event? (key, expected) *)
@@ -133,13 +155,52 @@ Definition kill_codes (c : cfg) (em : bool) (ew : nat) (s' : st) (o : oev) : lis
   | _ => []
   end.
 
+(* rounds that requested more than their free slots, and the keys of the
+   workers forked on their request ([t_keys] follows the re-keying) *)
+Record taint := { t_rounds : list N; t_keys : list nat }.
+Definition no_taint : taint := {| t_rounds := []; t_keys := [] |}.
+
+Definition memN (x : N) (l : list N) : bool := existsb (N.eqb x) l.
+
+Definition taint_next (c : cfg) (tn : taint) (o : oev) : taint :=
+  match o_ev o with
+  | ENormalize =>
+    match o_round o with
+    | Some (id, n, _) =>
+      if round_ok c (o_tracked o) n then tn
+      else {| t_rounds := id :: t_rounds tn; t_keys := t_keys tn |}
+    | None => tn
+    end
+  | EForking k =>
+    if memN (o_src o) (t_rounds tn) then {| t_rounds := t_rounds tn; t_keys := k :: t_keys tn |}
+    else tn
+  | ERekey b a =>
+    if o_acc o && mem b (t_keys tn) then {| t_rounds := t_rounds tn; t_keys := a :: t_keys tn |}
+    else tn
+  | _ => tn
+  end.
+
+(* a tracked worker stems from a fork requested by such a round *)
+Definition tainted_pool (tn : taint) (s : st) : bool :=
+  existsb (fun p : nat * winfo => mem (fst p) (t_keys tn)) (s_workers s).
+
 Definition violations (c : cfg) (em : bool) (pr ew : nat) (groups : list (N * list nat)) (s : st) (prev : N)
-           (o : oev) : list (N * N) :=
+           (tn : taint) (o : oev) : list (N * N) :=
   let was := mem pr (o_before o) in
   let now := mem pr (o_after o) in
-  (* tracked > Max, reported where the count grows beyond Max *)
+  let s' := model_next c em ew s o in
+  (* tracked > Max, reported where the count grows beyond Max. The known
+     "forks in flight are not counted" (151) only when the count grew by a fork
+     completion and no tracked worker was forked on the request of a round that
+     asked for more than its free slots *)
   (if negb (bound_ok c (o_tracked o)) && (prev <? o_tracked o)
-   then [(2, if is_ins (o_ev o) then 151 else 150)] else [])
+   then [(2, if is_ins (o_ev o) && negb (tainted_pool (taint_next c tn o) s') then 151 else 150)]
+   else [])
+  (* a round of the normalizer requested more forks than the free slots it saw *)
+  ++ (match o_ev o, o_round o with
+      | ENormalize, Some (_, n, _) => if round_ok c (o_tracked o) n then [] else [(2, 158)]
+      | _, _ => []
+      end)
   (* fork path entered although the gate saw tracked >= Max *)
   ++ (match o_fgate o with
       | Some (t, _) =>
@@ -174,12 +235,12 @@ Definition violations (c : cfg) (em : bool) (pr ew : nat) (groups : list (N * li
   ++ group_codes groups (o_after o).
 
 Fixpoint pool_codes (c : cfg) (em : bool) (pr ew : nat) (groups : list (N * list nat)) (s : st) (prev : N)
-         (evs : list oev) : list (N * N) :=
+         (tn : taint) (evs : list oev) : list (N * N) :=
   match evs with
   | [] => []
   | o :: r =>
-    mismatch c em pr ew s o ++ violations c em pr ew groups s prev o
-    ++ pool_codes c em pr ew groups (model_next c em ew s o) (o_tracked o) r
+    mismatch c em pr ew s o ++ violations c em pr ew groups s prev tn o
+    ++ pool_codes c em pr ew groups (model_next c em ew s o) (o_tracked o) (taint_next c tn o) r
   end.
 
 Definition pair_eqb (a b : N * N) : bool := (fst a =? fst b) && (snd a =? snd b).
@@ -202,7 +263,7 @@ Definition sets_codes (sc : schema) (groups : list (N * list nat)) (sets : list 
 Definition case_codes (k : c15case) : list (N * N) :=
   match k with
   | C15Pool c em pr ew groups evs wgroups wsets =>
-    pool_codes c em pr ew groups init_st 0 evs ++ flat_map (group_codes wgroups) wsets
+    pool_codes c em pr ew groups init_st 0 no_taint evs ++ flat_map (group_codes wgroups) wsets
   | C15Sets sc groups sets => sets_codes sc groups sets
   end.
 
